@@ -1,6 +1,6 @@
 (* TimerRun_proofs.v — theorems about Model/TimerRun.v *)
 From Coq Require Import ZArith List Bool Lia ZifyBool.
-From Verif Require Import Word Bits Tactics Gen_consts Gen_timer Heap TimerRun Heap_proofs.
+From Verif Require Import Word Bits Tactics Gen_consts Gen_time Gen_timer Time Time_proofs Heap TimerRun Heap_proofs.
 Import ListNotations.
 Local Open Scope Z_scope.
 
@@ -263,3 +263,157 @@ Proof.
   - destruct (nz _); [destruct (_ && _); [destruct (compute_missed _ _ _ _ _) as [[? ?] ?]|]|];
       cbn [fst]; rewrite tm_set_timer_eq; reflexivity.
 Qed.
+
+(* ------------------------------------------------------------------------------------------------ *)
+(* dispatch_source_set_timer / dispatch_after arithmetic (src/source.c), in terms of what the dispatch_time_t denotes
+   (Model/Time.v decode, shared with C12) *)
+Section Cfg.
+Local Ltac Zify.zify_post_hook ::= Z.div_mod_to_equations.
+
+Definition never_armed (tg : Z) : Prop := INT64_MAX <= tg.
+
+Theorem config_spec k start interval leeway cur_clock :
+  in64 start -> in64 interval -> in64 leeway -> clocks_ok k -> 0 <= cur_clock <= 2 ->
+  let '(clock, tg, dl, itv) :=
+    config_create start interval leeway cur_clock (now_wall k) (now_up k) (now_mono k) in
+  1 <= itv <= INT64_MAX /\ 0 <= dl <= INT64_MAX /\ 0 <= clock <= 2 /\
+  match decode k start with
+  | Forever => never_armed tg
+  | At c v => clock = cnum c /\ tg = v /\ 1 <= tg <= MAXV /\ tg <= dl /\
+              (itv < INT64_MAX -> dl - tg <= itv / 2)
+  end.
+Proof.
+  intros Hs Hi Hl Hk Hc. unfold config_create.
+  set (itv1 := if interval =? 0 then 1 else if s64 interval <? 0 then INT64_MAX else interval).
+  set (lw1 := if s64 leeway <? 0 then INT64_MAX else leeway).
+  assert (I1 : 1 <= itv1 <= INT64_MAX).
+  { unfold itv1, in64, INT64_MAX in *. destruct (Z.eqb_spec interval 0); [lia|].
+    destruct (Z.lt_ge_cases interval 9223372036854775808).
+    - rewrite s64_small by lia. destruct (Z.ltb_spec interval 0); lia.
+    - rewrite s64_high by lia. destruct (Z.ltb_spec (interval - 18446744073709551616) 0); lia. }
+  assert (L1 : 0 <= lw1 <= INT64_MAX).
+  { unfold lw1, in64, INT64_MAX in *.
+    destruct (Z.lt_ge_cases leeway 9223372036854775808).
+    - rewrite s64_small by lia. destruct (Z.ltb_spec leeway 0); lia.
+    - rewrite s64_high by lia. destruct (Z.ltb_spec (leeway - 18446744073709551616) 0); lia. }
+  clearbody itv1 lw1.
+  unfold f_dispatch_time_nano2mach, DISPATCH_TIME_FOREVER, DISPATCH_TIME_NOW.
+  (* the tail, for any (clock, target) *)
+  assert (Tail : forall clock tg, 0 <= clock <= 2 -> (1 <= tg <= MAXV \/ never_armed tg /\ tg < 18446744073709551616) ->
+    let '(c, t, dl, itv) :=
+      (let '(interval0, leeway0) :=
+         if negb (clock =? 2) then ((if itv1 <? 1 then 1 else itv1), lw1) else (itv1, lw1) in
+       let leeway1 := if (interval0 <? INT64_MAX) && (leeway0 >? interval0 / 2) then interval0 / 2 else leeway0 in
+       let deadline := if u64 (tg + leeway1) <? INT64_MAX then u64 (tg + leeway1) else INT64_MAX in
+       (clock, tg, deadline, interval0)) in
+    c = clock /\ t = tg /\ 1 <= itv <= INT64_MAX /\ 0 <= dl <= INT64_MAX /\
+    (1 <= tg <= MAXV -> tg <= dl /\ (itv < INT64_MAX -> dl - tg <= itv / 2))).
+  { intros clock tg Hcl Htg. unfold INT64_MAX, MAXV, never_armed in *.
+    assert (E : (if negb (clock =? 2) then ((if itv1 <? 1 then 1 else itv1), lw1) else (itv1, lw1)) = (itv1, lw1)).
+    { destruct (negb (clock =? 2)); auto. destruct (Z.ltb_spec itv1 1); [lia|auto]. }
+    rewrite E. cbv zeta.
+    set (lw2 := if (itv1 <? 9223372036854775807) && (lw1 >? itv1 / 2) then itv1 / 2 else lw1).
+    assert (L2 : 0 <= lw2 <= 9223372036854775807 /\ (itv1 < 9223372036854775807 -> lw2 <= itv1 / 2)).
+    { unfold lw2. destruct (Z.ltb_spec itv1 9223372036854775807), (Z.gtb_spec lw1 (itv1 / 2)); cbn [andb]; lia. }
+    clearbody lw2.
+    pose proof (u64_range (tg + lw2)) as U.
+    destruct (Z.ltb_spec (u64 (tg + lw2)) 9223372036854775807) as [B|B].
+    - repeat split; try lia.
+      + intros. rewrite u64_id in * by lia. lia.
+      + intros. rewrite u64_id in * by lia. lia.
+    - repeat split; try lia; intros; rewrite u64_id in * by lia; lia. }
+  destruct (Z.eqb_spec start 18446744073709551615) as [->|Ne].
+  - specialize (Tail cur_clock INT64_MAX Hc ltac:(right; unfold never_armed, INT64_MAX; lia)).
+    destruct (let '(interval0, leeway0) := _ in _) as [[[c t] dl] itv]. destruct Tail as (-> & -> & ? & ? & _).
+    change (decode k 18446744073709551615) with Forever. unfold never_armed, INT64_MAX in *. repeat split; lia.
+  - rewrite (to_clock_and_value_spec k start Hs Ne Hk).
+    pose proof Hk as (Hu & Hm & Hw). unfold MAXV in *.
+    destruct (decode k start) as [|c v] eqn:D.
+    + set (cl := if start <? 9223372036854775808 then 0 else if start <? 13835058055282163712 then 1 else 2).
+      assert (0 <= cl <= 2).
+      { unfold cl. destruct (Z.ltb_spec start 9223372036854775808); [lia|]. destruct (Z.ltb_spec start 13835058055282163712); lia. }
+      clearbody cl.
+      change (FOREVER =? 0) with false. cbv iota.
+      specialize (Tail cl FOREVER ltac:(lia) ltac:(right; unfold never_armed, INT64_MAX, FOREVER; lia)).
+      destruct (let '(interval0, leeway0) := _ in _) as [[[c t] dl] itv]. destruct Tail as (-> & -> & ? & ? & _).
+      unfold never_armed, FOREVER, INT64_MAX in *. repeat split; lia.
+    + destruct (decode_At k start c v Hs Hk D) as (Hb & HbU & HbM & HbW). unfold MAXV, lo in Hb.
+      assert (E : (let '(clock, target) :=
+                     match c with Up => (0, if start =? 0 then 0 else v) | Mono => (1, if start =? 9223372036854775808 then 0 else v) | Wall => (2, v) end in
+                   if target =? 0 then (clock, if clock =? 0 then now_up k else now_mono k) else (clock, target)) = (cnum c, v)).
+      { destruct c; cbn [cnum].
+        - destruct (HbU eq_refl) as [[-> ->]|[N ->]]; cbn; auto.
+          destruct (Z.eqb_spec start 0); [lia|]. destruct (Z.eqb_spec start 0); [lia|auto].
+        - destruct (HbM eq_refl) as [[-> ->]|[N ->]]; cbn; auto.
+          destruct (Z.eqb_spec start 9223372036854775808); [lia|].
+          destruct (Z.eqb_spec (start - 9223372036854775808) 0); [lia|auto].
+        - destruct (Z.eqb_spec v 0); [lia|auto]. }
+      rewrite E.
+      specialize (Tail (cnum c) v ltac:(destruct c; cbn; lia) ltac:(left; unfold MAXV; destruct c; lia)).
+      destruct (let '(interval0, leeway0) := _ in _) as [[[c' t] dl] itv]. destruct Tail as (-> & -> & ? & ? & T).
+      destruct (T ltac:(unfold MAXV; destruct c; lia)). unfold INT64_MAX in *. repeat split; try lia; try (destruct c; cbn; lia); auto.
+Qed.
+
+Lemma leeway_clamp d :
+  1000000 <= (if (if d / 10 <? 1000000 then 1000000 else d / 10) >? 60 * 1000000000 then 60 * 1000000000
+              else (if d / 10 <? 1000000 then 1000000 else d / 10)) <= 60 * 1000000000.
+Proof.
+  destruct (Z.ltb_spec (d / 10) 1000000).
+  - destruct (Z.gtb_spec 1000000 (60 * 1000000000)); lia.
+  - destruct (Z.gtb_spec (d / 10) (60 * 1000000000)); lia.
+Qed.
+
+Theorem after_spec k when :
+  in64 when -> clocks_ok k ->
+  let r := dispatch_after_model when (now_wall k) (now_up k) (now_mono k) in
+  match decode k when with
+  | Forever => (when = FOREVER /\ r = AfterNever) \/
+               (when <> FOREVER /\ exists c dl, r = AfterTimer c UINT64_MAX dl /\ never_armed UINT64_MAX)
+  | At c v => if v <=? now k c then r = AfterNow
+              else exists dl, r = AfterTimer (cnum c) v dl /\ v + NSEC_PER_MSEC <= dl <= v + 60 * NSEC_PER_SEC
+  end.
+Proof.
+  intros Hs Hk r. subst r. unfold dispatch_after_model, DISPATCH_TIME_FOREVER, NSEC_PER_MSEC, NSEC_PER_SEC, f_dispatch_time_nano2mach.
+  pose proof Hk as (Hu & Hm & Hw). unfold MAXV in *.
+  destruct (Z.eqb_spec when 18446744073709551615) as [->|Ne].
+  - change (decode k 18446744073709551615) with Forever. left. auto.
+  - destruct (decode k when) as [|c v] eqn:D.
+    + right. split; [exact Ne|].
+      assert (N0 : when <> 0).
+      { intros ->. unfold decode, FOREVER in D. cbn in D. discriminate. }
+      unfold f_dispatch_timeout, f_dispatch_time_mach2nano.
+      destruct (Z.eqb_spec when 18446744073709551615); [contradiction|]. destruct (Z.eqb_spec when 0); [contradiction|].
+      rewrite (to_clock_and_value_spec k when Hs Ne Hk), D.
+      set (cl := if when <? 9223372036854775808 then 0 else if when <? 13835058055282163712 then 1 else 2).
+      clearbody cl. unfold FOREVER.
+      assert (E : (if cl =? 2
+                   then if now_wall k >=? 18446744073709551615 then 0 else u64 (18446744073709551615 - now_wall k)
+                   else if (if cl =? 0 then now_up k else now_mono k) >=? 18446744073709551615 then 0
+                        else u64 (18446744073709551615 - (if cl =? 0 then now_up k else now_mono k))) <> 0).
+      { destruct (cl =? 2).
+        - destruct (Z.geb_spec (now_wall k) 18446744073709551615); [lia|]. rewrite u64_id; lia.
+        - destruct (cl =? 0).
+          + destruct (Z.geb_spec (now_up k) 18446744073709551615); [lia|]. rewrite u64_id; lia.
+          + destruct (Z.geb_spec (now_mono k) 18446744073709551615); [lia|]. rewrite u64_id; lia. }
+      cbv zeta. match goal with |- context [if ?x =? 0 then AfterNow else _] => destruct (Z.eqb_spec x 0) as [X|_]; [contradiction|] end.
+      eexists; eexists. split; [reflexivity|]. unfold never_armed, UINT64_MAX, INT64_MAX. lia.
+    + destruct (decode_At k when c v Hs Hk D) as (Hb & HbU & HbM & HbW). unfold MAXV, lo in Hb.
+      rewrite (timeout_spec k when c v Hs Hk D).
+      destruct (Z.leb_spec v (now k c)) as [L|L].
+      * rewrite Z.max_l by lia. reflexivity.
+      * rewrite Z.max_r by lia. destruct (Z.eqb_spec (v - now k c) 0); [lia|].
+        rewrite (to_clock_and_value_spec k when Hs Ne Hk), D.
+        assert (E : match c with Up => (0, if when =? 0 then 0 else v) | Mono => (1, if when =? 9223372036854775808 then 0 else v) | Wall => (2, v) end = (cnum c, v)).
+        { destruct c; cbn [cnum now] in *; auto.
+          - destruct (HbU eq_refl) as [[-> ->]|[N ->]]; [lia|]. destruct (Z.eqb_spec when 0); [lia|auto].
+          - destruct (HbM eq_refl) as [[-> ->]|[N ->]]; [lia|]. destruct (Z.eqb_spec when 9223372036854775808); [lia|auto]. }
+        rewrite E.
+        set (d := v - now k c) in *.
+        assert (Hd : 0 < d < 4611686018427387904) by (unfold d; destruct c; cbn [now] in *; lia).
+        pose proof (leeway_clamp d) as LC.
+        set (l2 := if (if d / 10 <? 1000000 then 1000000 else d / 10) >? 60 * 1000000000 then 60 * 1000000000
+                   else (if d / 10 <? 1000000 then 1000000 else d / 10)) in *.
+        assert (Vb : 1 <= v <= 4611686018427387903) by (destruct c; lia).
+        clearbody l2. destruct (negb (cnum c =? 2)); (eexists; split; [reflexivity|]); rewrite u64_id by lia; lia.
+Qed.
+End Cfg.
